@@ -134,7 +134,7 @@ class C11(Check):
     per_case_timeout = 10
     technique = ('machine-checked proof (Coq 8.16) about an executable model of the pthread primitives and of libnstd\'s wrappers '
                  '+ deterministic-scheduler correspondence (real library code on virtual primitives, same move list as the model)')
-    level_text = ('Theorems in Coq (22, closed under the global context) about every state reachable by ANY list of scheduler moves '
+    level_text = ('Theorems in Coq (31, closed under the global context; 22 about the coarse machine, 9 about its granularity) about every state reachable by ANY list of scheduler moves '
                   '(run a thread\'s pending primitive call, spurious wake-up, timeout, timeout-steal = a woken timed waiter past its '
                   'deadline reports ETIMEDOUT although the signal was directed at it (POSIX-permitted), clock advance, rotation of a '
                   'condition queue) from any scripts of library calls, any number of threads, any initial signal state and semaphore '
@@ -154,7 +154,19 @@ class C11(Check):
                   'scheduler (-Wl,--wrap=...; clock_gettime interposed) with the same move lists as the extracted model, comparing per '
                   'move: returned values, pending primitive call with the absolute deadline the code computed, blocked/enabled status of '
                   'every thread, the signaled flags read from the objects\' memory, mutex owners/counts, condition queues, semaphore '
-                  'value, occupancy counter.')
+                  'value, occupancy counter. GRANULARITY (round 4, rows [G] of Properties_C11.v): the model runs one primitive call plus the '
+                  'thread-local code after it per move; coq/Sync/SyncFine.v defines the FINE machine in which every plain read / write of '
+                  'Signal::signaled and Monitor::signaled is a move of its own (Monitor::wait\'s test-and-clear is two), with moves of other '
+                  'threads and of the clock in between. Proved for all scripts and all fine schedules: a thread in front of a Signal access '
+                  'owns the Signal\'s mutex (fine_signal_accesses_under_mutex), a thread in front of a Monitor access owns the monitor '
+                  'provided no thread has called Monitor::unlock while another thread owned the monitor (fine_monitor_accesses_under_mutex; '
+                  'ghost flag foreign_unlock), hence at most one thread per flag at an access (fine_access_exclusive) and no move of another '
+                  'thread changes the flag meanwhile (fine_flag_stable); every fine run is matched by a coarse run whose state agrees with the '
+                  'fine state after its pending accesses on all fields but the write-only ghost mark and whose history is equal up to swapping '
+                  'adjacent independent events (fine_granularity_adds_no_behaviours, fine_quiescent_is_coarse, fine_completes: at most 3 moves '
+                  'complete a fine state); the six history predicates are invariant under those swaps and suffix-closed, so they hold '
+                  'literally of every fine-reachable history with foreign_unlock = false (fine_all_ok). The hypothesis is necessary for the '
+                  'Monitor half: fine_monitor_race_under_foreign_unlock (one set(), two waits return true after a foreign unlock).')
     level_note = ('PARTIAL in this sense: the OS primitives are MODELLED. coq/Sync/Sched.v (pthread mutex plain/recursive - EPERM for a '
                   'non-owner unlock only on the recursive type, a default-type mutex is freed whoever held it, as glibc does -, condition '
                   'variable with spurious wake-ups, timeouts and timeout-steals as scheduler moves, POSIX semaphore with EINTR, '
@@ -168,9 +180,25 @@ class C11(Check):
                   'and the real kernel scheduler are never exercised by this check (no real-thread soak was built). The rows marked [P] '
                   'in Properties_C11.v (Mutex, Semaphore, tryLock, Thread) are properties of that modelled primitive reached through the '
                   'wrapper, not of wrapper logic. Granularity: one move = one primitive call plus the thread-local code up to the next '
-                  'call; the only shared plain variables (the two signaled flags) are touched only in the move that acquired the '
-                  'guarding mutex, so finer interleavings add no behaviours under sequential consistency (ARGUED in SyncModel.v, NOT '
-                  'PROVED). A thread id runs at most once per scenario: restarting a Thread object after join() is allowed by the class '
+                  'call. That finer interleavings of the accesses to the two signaled flags add no behaviours is now PROVED in Coq '
+                  '(SyncFine*.v, theorems fine_* in Properties_C11.v) as a simulation of the fine machine by the coarse one: state agreement '
+                  'modulo the ghost mark, histories equal up to commuting independent events (plain equality of histories is false: '
+                  'ex_fine_log_differs), all six history predicates transferred (fine_all_ok). For Signal the mutual exclusion holds for ALL '
+                  'scripts (SM is private to Signal). For Monitor it holds under the explicit hypothesis foreign_unlock = false = no thread '
+                  'performed Monitor::unlock on a monitor owned by another thread: MM is a default-type pthread mutex that the client locks and '
+                  'unlocks, glibc frees it whoever calls unlock, and after such a foreign unlock two waiters can test-and-clear the flag at once '
+                  '(fine_monitor_race_under_foreign_unlock: two waits return true for one set). That is a violation of the client contract '
+                  '(POSIX: undefined), not a libnstd defect; consequently the coarse Monitor theorems (monitor_waits_le_sets, '
+                  'monitor_set_releases_a_waiter, monitor_woken_waiter_returns_true), stated for any scripts, are at fine granularity theorems '
+                  'about clients that respect that contract only (Monitor::wait without owning the monitor stops the thread, TFault, in '
+                  'Sched.v). What stays outside the proof: the fine machine still interleaves at the level of whole plain accesses under '
+                  'sequential consistency (no weaker memory model, no torn accesses - the pthread lock/unlock pairs around every access are '
+                  'what makes that adequate); the thread-local code without shared accesses (deadline arithmetic, return-value handling) stays '
+                  'fused with the neighbouring move, which is sound because it touches nothing another thread can read; the ghost mark is '
+                  'not related across the two machines (it is write-only), so the state theorems that do not mention it transfer to '
+                  'quiescent fine states through the state agreement (fine_quiescent_is_coarse), while monitor_set_releases_a_waiter, whose '
+                  'premise names the mark, is NOT transferred to the fine machine; the fine machine is not tied to the implementation by a '
+                  'correspondence run of its own (the harness schedules at primitive-call granularity, like the coarse model). A thread id runs at most once per scenario: restarting a Thread object after join() is allowed by the class '
                   'but impossible in the model and in the virtual pthread_create (EAGAIN). One object of each class per scenario; the '
                   'ENOSYS polling fallback of Semaphore::wait(timeout) (Semaphore.cpp:74-87, sem_trywait + usleep loop) is neither '
                   'modelled nor ever executed by this check (the virtual sem_timedwait never reports ENOSYS); Thread::yield, '
@@ -196,7 +224,7 @@ class C11(Check):
             'a deadline case when the nanosecond field carries or the timeout has a sub-second part; distinct = distinct op text.')
     assumptions = ['initial semaphore value >= 0 (uint in the code)',
                    'OS primitives behave as coq/Sync/Sched.v says (POSIX semantics incl. spurious wake-ups, ETIMEDOUT only at/after the absolute deadline but possibly after a signal was consumed, EINVAL for tv_nsec outside [0,1e9), glibc order in sem_timedwait, glibc owner check on unlock only for recursive mutexes); harness/sync_sched.cpp transcribes it',
-                   'sequential consistency at the granularity of primitive calls (flags only accessed under the internal mutex)',
+                   'sequential consistency at the granularity of whole plain accesses to the two signaled flags (that primitive-call granularity loses nothing is proved: fine_granularity_adds_no_behaviours); for the Monitor half of that proof: no thread calls Monitor::unlock while another thread owns the monitor (foreign_unlock = false; necessary: fine_monitor_race_under_foreign_unlock)',
                    'the clock read by a timed wait is the clock its primitive measures the deadline against (checked on the implementation by the two scripted clocks of the virtual scheduler, not part of the Coq model)',
                    'time_t/long arithmetic of the deadline does not overflow: 0 <= ns + (t rem 1000)*10^6 < 2*10^9 is proved; tv_sec + t/1000 is assumed to fit 64 bits']
 
